@@ -13,7 +13,13 @@ Theorem leaf_scalar_int_sound : forall op, In op scalar_ops -> forall v vmin vma
 Proof.
   intros op Hop. cbn [scalar_ops In] in Hop.
   repeat (destruct Hop as [<-|Hop];
-          [intros v vmin vmax z Hlo Hhi H; bound_shapes Hlo Hhi; solve [leaf_scalar_int H]|]).
+          [intros v vmin vmax z Hlo Hhi H;
+           match goal with |- sat ?o _ _ = _ =>
+             assert (forall lo hi, lo_core lo z -> hi_core hi z ->
+                       ok_true (filter_val (PStr o) (PInt v) lo hi) = true -> sat o (PInt z) (PInt v) = false) as core
+               by (clear; intros lo hi Hlo Hhi H; core_shapes Hlo Hhi; solve [leaf_scalar_int H])
+           end;
+           solve [lift_core core Hlo Hhi H]|]).
   contradiction.
 Qed.
 
@@ -21,14 +27,22 @@ Theorem leaf_in_int_sound : forall vs vmin vmax z,
   lo_ok_int vmin z -> hi_ok_int vmax z ->
   ok_true (filter_val (PStr "in") (ints vs) vmin vmax) = true -> sat "in" (PInt z) (ints vs) = false.
 Proof.
-  intros vs vmin vmax z Hlo Hhi H; bound_shapes Hlo Hhi; solve [leaf_list_int H].
+  intros vs vmin vmax z Hlo Hhi H.
+  assert (forall lo hi, lo_core lo z -> hi_core hi z ->
+            ok_true (filter_val (PStr "in") (ints vs) lo hi) = true -> sat "in" (PInt z) (ints vs) = false) as core
+    by (clear; intros lo hi Hlo Hhi H; core_shapes Hlo Hhi; solve [leaf_list_int H]).
+  solve [lift_core core Hlo Hhi H].
 Qed.
 
 Theorem leaf_not_in_int_sound : forall vs vmin vmax z,
   lo_ok_int vmin z -> hi_ok_int vmax z ->
   ok_true (filter_val (PStr "not in") (ints vs) vmin vmax) = true -> sat "not in" (PInt z) (ints vs) = false.
 Proof.
-  intros vs vmin vmax z Hlo Hhi H; bound_shapes Hlo Hhi; solve [leaf_list_int H].
+  intros vs vmin vmax z Hlo Hhi H.
+  assert (forall lo hi, lo_core lo z -> hi_core hi z ->
+            ok_true (filter_val (PStr "not in") (ints vs) lo hi) = true -> sat "not in" (PInt z) (ints vs) = false) as core
+    by (clear; intros lo hi Hlo Hhi H; core_shapes Hlo Hhi; solve [leaf_list_int H]).
+  solve [lift_core core Hlo Hhi H].
 Qed.
 
 Definition all_ops (op : string) : Prop := In op ops.
